@@ -25,11 +25,12 @@ import (
 
 	"github.com/saucelabs/forwarder"
 	"github.com/saucelabs/forwarder/verifharness/core"
+	"github.com/saucelabs/forwarder/verifharness/srcgen"
 	"github.com/saucelabs/forwarder/verifharness/reqmodel"
 	"github.com/saucelabs/forwarder/verifharness/rig"
 )
 
-func init() { core.Register("C05", core.Scenario{Run: Run, Replay: Replay}) }
+func init() { core.Register("C05", core.Scenario{Run: Run, Replay: Replay, Prepare: srcgen.PrepareC05}) }
 
 const deadAddr = "127.0.0.1:1"
 
